@@ -6,6 +6,7 @@ import Mathlib.Tactic.Linarith
 import Mathlib.Tactic.SplitIfs
 import Resvg.Geom.BBox
 import Resvg.Lemmas.Transform
+import Resvg.Generated.StateRestore
 
 namespace Resvg.Props.C12
 open Resvg Resvg.Geom Resvg.Lemmas
@@ -156,5 +157,36 @@ theorem C12_abs_box_contains_painted_point (root : Transform Rat) (chain : List 
 /-- non-vacuity: a rotated-and-skewed box -/
 example : let b := LTRB.transform (⟨0, 0, 10, 20⟩ : LTRB Rat) ⟨0, 1, -1, 1, 5, 5⟩
     b.l = -15 ∧ b.t = 5 ∧ b.r = 5 ∧ b.b = 35 := by decide +kernel
+
+/-! ### a dropped instance leaves nothing behind -/
+
+/-- `use_node::convert_children`: the parent's absolute transform is multiplied by the instance transform for
+    the time of the conversion and put back afterwards; `conv` is the conversion (it may drop the instance) -/
+def convertInstance (parentAbs inst : Transform Rat) (conv : Transform Rat → Option (Transform Rat)) :
+    Option (Transform Rat) × Transform Rat :=
+  (conv (parentAbs.preConcat inst), parentAbs)
+
+/-- what three independent seeded slips did: the restore only on the path where the instance is kept -/
+def convertInstanceLeaky (parentAbs inst : Transform Rat) (conv : Transform Rat → Option (Transform Rat)) :
+    Option (Transform Rat) × Transform Rat :=
+  match conv (parentAbs.preConcat inst) with
+  | some g => (some g, parentAbs)
+  | none => (none, parentAbs.preConcat inst)
+
+/-- **whatever happens to the instance, the parent's absolute transform is what it was** — so the siblings
+    converted afterwards get the product of their own ancestors; the translator checks on every run that the
+    source has this shape (restore at the depth of the save, no early exit in between, last statement) -/
+theorem C12_instance_conversion_restores (parentAbs inst : Transform Rat)
+    (conv : Transform Rat → Option (Transform Rat)) :
+    (convertInstance parentAbs inst conv).2 = parentAbs ∧
+    ∀ e ∈ Generated.stateRestores, e.2.2 = (true, true, true) := by
+  refine ⟨rfl, ?_⟩
+  decide
+
+/-- the leaky version keeps a dropped instance's offset: `use x="60" y="30"` dropped under an identity parent -/
+theorem C12_leaky_conversion_displaces :
+    act (convertInstanceLeaky ⟨1, 0, 0, 1, 0, 0⟩ ⟨1, 0, 0, 1, 60, 30⟩ (fun _ => none)).2 (0, 0) = (60, 30) ∧
+    act (convertInstance ⟨1, 0, 0, 1, 0, 0⟩ ⟨1, 0, 0, 1, 60, 30⟩ (fun _ => none)).2 (0, 0) = (0, 0) := by
+  constructor <;> decide +kernel
 
 end Resvg.Props.C12
